@@ -267,8 +267,14 @@ func (drap *draPlugin) allocateResourceClaim(task *pod_info.PodInfo, podClaim *v
 	// If the claim info has already been allocated in the past (the deallocation was virtual), recover previous allocation data
 	allocatedFromMemory := false
 	if claimAllocationInfo, ok := task.ResourceClaimInfo[podClaim.Name]; ok && claimAllocationInfo.Allocation != nil {
-		claim.Status.Allocation = claimAllocationInfo.Allocation.DeepCopy()
-		allocatedFromMemory = true
+		// The remembered devices may have been handed to another task of the scenario since the virtual
+		// deallocation (a victim is put back after the preemptor took its devices): then allocate afresh.
+		// (A claim whose allocation is in flight in a BindRequest keeps its devices booked all along: they are its own.)
+		if claim.Status.Allocation != nil || drap.manager.ResourceClaims().ClaimHasPendingAllocation(claim.UID) ||
+			drap.devicesAreFree(claimAllocationInfo.Allocation) {
+			claim.Status.Allocation = claimAllocationInfo.Allocation.DeepCopy()
+			allocatedFromMemory = true
+		}
 	}
 
 	if claim.Status.Allocation == nil {
@@ -315,6 +321,21 @@ func (drap *draPlugin) allocateResourceClaim(task *pod_info.PodInfo, podClaim *v
 	}
 
 	return nil
+}
+
+// devicesAreFree tells whether no device of the allocation is currently allocated to any claim.
+func (drap *draPlugin) devicesAreFree(allocation *resourceapi.AllocationResult) bool {
+	allocatedDevices, err := drap.manager.ResourceClaims().ListAllAllocatedDevices()
+	if err != nil {
+		log.InfraLogger.Errorf("Failed to list allocated devices: %v", err)
+		return true
+	}
+	for _, result := range allocation.Devices.Results {
+		if allocatedDevices.Has(structured.MakeDeviceID(result.Driver, result.Pool, result.Device)) {
+			return false
+		}
+	}
+	return true
 }
 
 func (drap *draPlugin) deallocateResourceClaim(task *pod_info.PodInfo, podClaim *v1.PodResourceClaim) error {
